@@ -37,6 +37,10 @@ pub struct FnSpec {
 pub enum Take {
     Item { kind: String, name: String },
     Impl { header: String, fns: Vec<String>, inherent_as: Option<(String, String)>, self_as: Option<String> },
+    // rule C: the k-th outermost closure of a function, lifted to a named inherent function with the given signature
+    Closure { fn_path: String, index: usize, new_path: String, sig: String },
+    // shape obligation: the body of a function with its outermost closures replaced by __Ck__ must read exactly like this
+    Shape { fn_path: String, props: Vec<String>, expected: String },
 }
 
 #[derive(Default)]
@@ -157,7 +161,16 @@ pub fn parse_unit(text: &str) -> Unit {
             else if let Some((_, takes)) = u.sources.last_mut() {
                 let t = line.trim();
                 if let Some(rest) = t.strip_prefix("take ") {
-                    if let Some(r) = rest.strip_prefix("impl ") {
+                    if let Some(r) = rest.strip_prefix("closure ") {
+                        let mut it = r.splitn(5, ' ');
+                        let fn_path = it.next().unwrap().to_string(); let index: usize = it.next().unwrap().parse().unwrap();
+                        assert_eq!(it.next(), Some("as")); let new_path = it.next().unwrap().to_string(); let sig = it.next().unwrap_or("").to_string();
+                        takes.push(Take::Closure { fn_path, index, new_path, sig });
+                    } else if let Some(r) = rest.strip_prefix("shape ") {
+                        let mut it = r.splitn(3, ' ');
+                        let fn_path = it.next().unwrap().to_string(); let props = it.next().unwrap().split('+').map(|s| s.to_string()).collect(); let expected = norm(it.next().unwrap_or(""));
+                        takes.push(Take::Shape { fn_path, props, expected });
+                    } else if let Some(r) = rest.strip_prefix("impl ") {
                         let (hdr, fns) = r.split_once(" : ").expect("impl take needs ' : '");
                         let (hdr, self_as) = match hdr.split_once(" => ") { Some((a, b)) => (a, Some(b.trim().to_string())), None => (hdr, None) };
                         let (fnlist, inh) = match fns.split_once(" as ") { Some((a, b)) => (a, Some(b.trim().to_string())), None => (fns, None) };
